@@ -38,6 +38,8 @@ REPORTED = {
                              "(`main` + 5 digits -> 4 digits; f called 13 times -> `f 1`)",
     "chrome-name-overflow": "dump --chrome escapes a function name into name_buf[2048] without a bound: a name whose "
                             "escaped form needs >= 2048 bytes overruns the stack (SIGSEGV / ASan stack-buffer-overflow)",
+    "chrome-no-event-comma": "dump --chrome ends every metadata event with a comma: when the filters leave no function "
+                             "event the traceEvents array has a trailing comma (invalid JSON)",
     "chrome-comm-escape": "dump --chrome prints task->comm raw in the process_name/thread_name events: a double "
                           "quote or backslash in the executable's file name gives invalid JSON",
 }
@@ -435,7 +437,7 @@ def ccase(c, p):
 
 PRE = """From Coq Require Import NArith List Bool Uint63.
 Import ListNotations.
-Require Import UV.C15.Model UV.C15.Lit.
+Require Import UV.C15.Model UV.C15.Doc UV.C15.Lit.
 Local Open Scope uint63_scope.
 """
 KINDS = ["graph", "flame0", "flameS", "dot", "mermaid", "chrome"]
@@ -449,10 +451,21 @@ def evaluate_cases(ctx, cases, parsed, name="cases", flame_fixed=False):
         arg = (" true" if flame_fixed else " false") if k.startswith("flame") else ""
         evals.append(("mismatch_" + k, "bad_indices (agree_%s%s) cases 0" % (k, arg)))
         evals.append(("violation_" + k, "bad_indices okc_%s cases 0" % k))
+    docs = [(i, dd) for i, p in enumerate(parsed) for dd in p.get("docs", [])]
+    defs += "Definition docs : list dcase := [\n%s\n].\n" % ";\n".join(
+        "mk_dcase (nth %d%%nat cases (mk_case [] [] [] [] 0%%N [] [] [] [] [] [] true [] [])) [%s] %s %s %s %s %s" % (
+            i, "; ".join("cm %d %s" % (t, cb(cmm)) for t, cmm in dd["comms"]), cb(dd["version"]), cb(dd["date"]),
+            "None" if dd["cmdline"] is None else "(Some %s)" % cb(dd["cmdline"]),
+            "true" if dd["noev"] else "false", cb(dd["raw"])) for i, dd in docs)
+    evals.append(("mismatch_doc", "bad_indices agree_doc docs 0"))
+    evals.append(("violation_doc", "bad_indices okc_doc docs 0"))
     res = coq.run_cases(ctx, name, PRE, defs, evals)
     if res is None:
         return None
-    return {k: coq.parse_nat_list(v) for k, v in res.items()}
+    res = {k: coq.parse_nat_list(v) for k, v in res.items()}
+    res["doc_owner"] = [i for i, _ in docs]
+    res["doc_list"] = [dd for _, dd in docs]
+    return res
 
 
 def case_json(c, p=None):
@@ -476,6 +489,19 @@ def case_from_json(j):
             "strs": {int(i): bytes.fromhex(v) for i, v in (j.get("strs") or {}).items()}}
 
 
+VERDATE = re.compile(rb'"version":"uftrace ([^\n]*)",\n"recorded_time":"([^\n"]*)"')
+
+
+def doc_inputs(c, raw, cmdline, with_cmdline, noev=False):
+    """what the whole-document model needs besides the case: comm per tid, version/date as printed"""
+    m = VERDATE.search(raw)
+    if not m:
+        raise ParseError("no version/recorded_time in the chrome output")
+    comm = os.path.basename(c["exe"]).encode()[:15]
+    return {"comms": [(t[0], comm) for t in c["tasks"]], "version": m.group(1), "date": m.group(2),
+            "cmdline": cmdline if with_cmdline else None, "noev": noev, "raw": raw}
+
+
 def run_case(objdir, c, d, cmdline=b"prog arg", with_cmdline=True):
     write_dir(c, d, cmdline=cmdline, with_cmdline=with_cmdline)
     o = run_outputs(objdir, d, c["sample"])
@@ -483,7 +509,17 @@ def run_case(objdir, c, d, cmdline=b"prog arg", with_cmdline=True):
     p = {"graph": parse_graph(o["graph"]), "flame0": parse_flame(o["flame0"]), "flameS": parse_flame(o["flameS"]),
          "dot": parse_dot(o["dot"]), "mermaid": parse_mermaid(o["mermaid"]), "chrome": evs, "json_ok": ok,
          "meta": meta, "doc": doc, "raw_chrome": o["chrome"]}
+    p["docs"] = [doc_inputs(c, o["chrome"], cmdline, with_cmdline)]
     return p
+
+
+def run_noev(objdir, c, d, rng, cmdline=b"prog arg", with_cmdline=True):
+    """the same directory with a filter that leaves no function record (d must have been written by run_case)"""
+    opt = ["-r", "~0.000000001"]          # a time range that ends before the first record
+    rc, out, err = uft(objdir, ["dump", "--chrome", "--no-pager", "-d", d] + opt)
+    if rc != 0:
+        raise ParseError("uftrace dump --chrome %s exited with %d" % (" ".join(opt), rc))
+    return doc_inputs(c, out, cmdline, with_cmdline, noev=True)
 
 
 # ---------------------------------------------------------------------------------------------
@@ -714,6 +750,13 @@ def witnesses(ctx, objdir, hexe):
     repro["chrome-name-overflow"] = rc != 0 or not parse_chrome(out)[0]
     report_defect(ctx, "chrome-name-overflow", repro["chrome-name-overflow"],
                   {"kind": "witness", "long_name": 3000, "exit_status": rc})
+    # 6. a filter that leaves no function event
+    write_dir(base, d)
+    rc, out, err = uft(objdir, ["dump", "--chrome", "--no-pager", "-d", d, "-r", "~0.000000001"])
+    ctx.case(key=("wit", "noevent"), tags=["witness:no-event"])
+    repro["chrome-no-event-comma"] = rc != 0 or not parse_chrome(out)[0]
+    report_defect(ctx, "chrome-no-event-comma", repro["chrome-no-event-comma"],
+                  {"kind": "witness", "option": "-r ~0.000000001"})
     # sanity: the plain directory is valid JSON
     ok, out = chrome_ok()
     if not ok:
@@ -786,7 +829,28 @@ def verdict(ctx, cases, parsed, res, flame_fixed=False):
                               {"kind": "dir", "output": k, "correspondence": "C15.Model vs uftrace " + k,
                                "case": case_json(cases[i], parsed[i])}, False)
                 break
-    ctx.extra["disagreements_checked"] = sum(len(res["mismatch_" + k]) for k in KINDS)
+    # the whole --chrome document: Coq's JSON validator on the implementation's bytes, cross-checked with python's
+    for j in res.get("violation_doc", [])[:2]:
+        anyviol = True
+        i = res["doc_owner"][j]
+        ctx.violation("C15 violated: the text written by dump --chrome is not a JSON document",
+                      {"kind": "dir", "output": "doc", "noev": res["doc_list"][j]["noev"],
+                       "case": case_json(cases[i], parsed[i])}, True)
+    for j, dd in enumerate(res.get("doc_list", [])):
+        py = parse_chrome(dd["raw"])[0]
+        if py != (j not in res["violation_doc"]):
+            ctx.broken("the Coq JSON validator and python's json disagree on an implementation output (doc %d: coq=%s python=%s)"
+                       % (j, j not in res["violation_doc"], py))
+            break
+    if not anyviol and res.get("mismatch_doc"):
+        j = res["mismatch_doc"][0]
+        i = res["doc_owner"][j]
+        ctx.violation("model and implementation disagree on the text of dump --chrome (%d documents); the JSON validator "
+                      "accepts every explored output" % len(res["mismatch_doc"]),
+                      {"kind": "dir", "output": "doc", "noev": res["doc_list"][j]["noev"],
+                       "case": case_json(cases[i], parsed[i])}, False)
+    ctx.extra["chrome_documents_compared_bytewise"] = len(res.get("doc_list", []))
+    ctx.extra["disagreements_checked"] = sum(len(res["mismatch_" + k]) for k in KINDS) + len(res.get("mismatch_doc", []))
 
 
 def tags_of(c):
@@ -890,6 +954,13 @@ def run(ctx):
             ctx.violation("an export of a well-formed trace could not be parsed back: %s" % e,
                           {"kind": "dir", "case": case_json(c)}, True)
             continue
+        if i % 4 == 0:
+            try:
+                p["docs"].append(run_noev(objdir, c, d, ctx.rng, **kw))
+                extra_tags.append("chrome:no-event-left")
+            except ParseError as e:
+                ctx.violation("dump --chrome with a filter that leaves no record failed: %s" % e,
+                              {"kind": "dir", "case": case_json(c)}, True)
         cases.append(c)
         parsed.append(p)
         ctx.case(key=("dir", tuple(c["syms"]), tuple(c["recs"])), nontrivial=len(c["recs"]) >= 2,
